@@ -111,7 +111,8 @@ pub fn exec_par(w: &mut World, st: &Step) -> bool {
     for c in clients {
         let mut b = vec![];
         for op in c {
-            if let Op::Write { len, .. } = op {
+            if let Op::Write { off, len } = op {
+                w.note_write(*off, *len as u64);
                 b.push(w.alloc_ids(*len as usize));
             } else {
                 b.push(0);
